@@ -1,4 +1,279 @@
-(* C16 — statements are being added; see DESIGN.md section 7. *)
-From XSG.Model Require Import Strings.
-Example C16_placeholder : True. Proof. exact I. Qed.
-Print Assumptions C16_placeholder.
+(* C16 — Hand-built trees: for any sequence of the public construction operations (create, add
+   child, mark child optional, remove child, merge attribute list, mark as multiple, set text)
+   child names under one parent stay unique, lookup and removal address the child with the given
+   name, adding a present name changes nothing, marking optional preserves the child's subtree.
+   Only statements; every proof is `exact <lemma of Proofs/OpsProofs.v>`. *)
+From Coq Require Import String.
+From XSG.Model Require Import Strings Necessity Element Parser Ops.
+From XSG.Proofs Require Import ElementProofs OpsProofs.
+Local Open Scope list_scope.
+
+(* ---- 1/2. uniqueness is an invariant of every operation, hence of every reachable state ---- *)
+Theorem C16_unique_step : forall e o, Uniq e -> Uniq (fst (step e o)).
+Proof. exact ops_unique_step. Qed.
+
+Theorem C16_unique : forall n a ops, Uniq (run_ops (new_element n a) ops).
+Proof. exact ops_unique. Qed.
+
+(* spelled out: at every addressable node of every reachable state *)
+Theorem C16_unique_everywhere : forall n a ops p x,
+  get_at (run_ops (new_element n a) ops) p = Some x ->
+  NoDup (child_names (echildren x)) /\ NoDup (map snd (eattrs x)).
+Proof. exact ops_unique_everywhere. Qed.
+
+(* supporting facts named in the task: subtrees of a Uniq tree are Uniq; a local change that
+   keeps Uniq and the node's name keeps Uniq of the whole tree; an unresolved path is a no-op *)
+Theorem C16_unique_subtree : forall p e x, get_at e p = Some x -> Uniq e -> Uniq x.
+Proof. exact Uniq_get_at. Qed.
+Theorem C16_unique_update_at : forall f,
+  (forall x, Uniq x -> Uniq (f x)) -> (forall x, ename (f x) = ename x) ->
+  forall p e, Uniq e -> Uniq (update_at e p f).
+Proof. exact Uniq_update_at. Qed.
+Theorem C16_update_at_addresses : forall f, (forall x, ename (f x) = ename x) ->
+  forall p e, get_at (update_at e p f) p = option_map f (get_at e p).
+Proof. exact get_at_update_at. Qed.
+Theorem C16_unresolved_path_noop : forall f p e, get_at e p = None -> update_at e p f = e.
+Proof. exact update_at_unresolved. Qed.
+
+(* ---- 3. adding a name that is already present changes nothing ---- *)
+Theorem C16_add_present_noop : forall e c x,
+  get_child (echildren e) (ename c) = Some x -> add_unique_child e c = e.
+Proof. exact ops_add_present_noop. Qed.
+
+Theorem C16_add_present_noop_op : forall e p n a x c,
+  get_at e p = Some x -> get_child (echildren x) n = Some c ->
+  fst (step e (OAdd p n a)) = e.
+Proof. exact ops_add_present_noop_op. Qed.
+
+(* ---- 4. lookup and removal address the child with the given name ---- *)
+Theorem C16_lookup_sound : forall l n c, get_child l n = Some c -> In c l /\ cname c = n.
+Proof. exact ops_lookup_sound. Qed.
+Theorem C16_lookup_complete : forall l c,
+  NoDup (child_names l) -> In c l -> get_child l (cname c) = Some c.
+Proof. exact ops_lookup_complete. Qed.
+Theorem C16_lookup_none : forall l n, get_child l n = None <-> ~ In n (child_names l).
+Proof. exact ops_lookup_none. Qed.
+
+Theorem C16_remove_returns_lookup : forall l n, fst (remove_child l n) = get_child l n.
+Proof. exact ops_remove_returns_lookup. Qed.
+Theorem C16_remove_removes : forall l n,
+  NoDup (child_names l) -> get_child (snd (remove_child l n)) n = None.
+Proof. exact ops_remove_removes. Qed.
+Theorem C16_remove_keeps_others : forall l n m,
+  m <> n -> get_child (snd (remove_child l n)) m = get_child l m.
+Proof. exact ops_remove_keeps_others. Qed.
+Theorem C16_remove_order : forall l n,
+  child_names (snd (remove_child l n)) = remove_first n (child_names l).
+Proof. exact ops_remove_order. Qed.
+Theorem C16_remove_absent_noop : forall l n, get_child l n = None -> snd (remove_child l n) = l.
+Proof. exact ops_remove_absent_noop. Qed.
+
+(* the NoDup hypothesis of C16_remove_removes cannot be dropped *)
+Example C16_remove_removes_needs_nodup :
+  let a := new_element (s "a") [] in
+  get_child (snd (remove_child [(Mand, a); (Opt, a)] (s "a"))) (s "a") = Some (Opt, a).
+Proof. exact ops_remove_removes_needs_nodup. Qed.
+
+(* the operation ORemove at a resolved path of a Uniq tree *)
+Theorem C16_remove_op : forall e p n x, Uniq e -> get_at e p = Some x ->
+  snd (step e (ORemove p n)) = get_child (echildren x) n /\
+  exists x', get_at (fst (step e (ORemove p n))) p = Some x' /\
+             get_child (echildren x') n = None /\
+             (forall m, m <> n -> get_child (echildren x') m = get_child (echildren x) m) /\
+             child_names (echildren x') = remove_first n (child_names (echildren x)).
+Proof. exact ops_remove_op. Qed.
+
+(* ---- 5. marking optional preserves the child's subtree and the other children ---- *)
+Theorem C16_optional_keeps_subtree : forall e n,
+  NoDup (child_names (echildren e)) ->
+  get_child (echildren (set_child_optional e n)) n
+  = option_map (fun c => (Opt, snd c)) (get_child (echildren e) n).
+Proof. exact ops_optional_keeps_subtree. Qed.
+
+Theorem C16_optional_keeps_others : forall e n m,
+  m <> n -> get_child (echildren (set_child_optional e n)) m = get_child (echildren e) m.
+Proof. exact ops_optional_keeps_others. Qed.
+
+Theorem C16_optional_is_optional : forall e n c,
+  NoDup (child_names (echildren e)) -> get_child (echildren e) n = Some c ->
+  get_child (echildren (set_child_optional e n)) n = Some (Opt, snd c).
+Proof. exact ops_optional_is_optional. Qed.
+
+(* the NoDup hypothesis of C16_optional_keeps_subtree cannot be dropped *)
+Example C16_optional_keeps_subtree_needs_nodup :
+  let a1 := new_element (s "a") [s "x"] in
+  let a2 := new_element (s "a") [s "y"] in
+  let e := set_children (new_element (s "r") []) [(Mand, a1); (Opt, a2)] in
+  get_child (echildren e) (s "a") = Some (Mand, a1) /\
+  get_child (echildren (set_child_optional e (s "a"))) (s "a") = Some (Opt, a2).
+Proof. exact ops_optional_keeps_subtree_needs_nodup. Qed.
+
+Theorem C16_optional_op : forall e p n x, Uniq e -> get_at e p = Some x ->
+  exists x', get_at (fst (step e (OOpt p n))) p = Some x' /\
+             get_child (echildren x') n
+               = option_map (fun c => (Opt, snd c)) (get_child (echildren x) n) /\
+             (forall m, m <> n -> get_child (echildren x') m = get_child (echildren x) m) /\
+             child_tags (echildren x') = tags_opt n (child_tags (echildren x)).
+Proof. exact ops_optional_op. Qed.
+
+(* ---- 6. refinement to an ordered map of names (and of names to tags) ---- *)
+Theorem C16_refine_add_names : forall e c,
+  child_names (echildren (add_unique_child e c))
+  = if mem (ename c) (child_names (echildren e)) then child_names (echildren e)
+    else child_names (echildren e) ++ [ename c].
+Proof. exact ops_refine_add_names. Qed.
+
+Theorem C16_refine_opt_names : forall e n,
+  NoDup (child_names (echildren e)) ->
+  child_names (echildren (set_child_optional e n))
+  = if mem n (child_names (echildren e)) then remove_first n (child_names (echildren e)) ++ [n]
+    else child_names (echildren e).
+Proof. exact ops_refine_opt_names. Qed.
+
+Example C16_refine_opt_names_needs_nodup :
+  let a := new_element (s "a") [] in
+  let e := set_children (new_element (s "r") []) [(Mand, a); (Opt, a)] in
+  child_names (echildren (set_child_optional e (s "a"))) = [s "a"] /\
+  names_opt (s "a") (child_names (echildren e)) = [s "a"; s "a"].
+Proof. exact ops_refine_opt_names_needs_nodup. Qed.
+
+(* with the tags: child_tags l = [(name, necessity) ...] in order; tags_add appends (n, Mand)
+   when n is absent, tags_opt moves n to the end as (n, Opt), remove_key drops the first n *)
+Theorem C16_refine_tags_names : forall l, map fst (child_tags l) = child_names l.
+Proof. exact child_tags_names. Qed.
+Theorem C16_refine_add_tags : forall e c,
+  child_tags (echildren (add_unique_child e c)) = tags_add (ename c) (child_tags (echildren e)).
+Proof. exact ops_refine_add_tags. Qed.
+Theorem C16_refine_opt_tags : forall e n,
+  NoDup (child_names (echildren e)) ->
+  child_tags (echildren (set_child_optional e n)) = tags_opt n (child_tags (echildren e)).
+Proof. exact ops_refine_opt_tags. Qed.
+Theorem C16_refine_remove_tags : forall l n,
+  child_tags (snd (remove_child l n)) = remove_key n (child_tags l).
+Proof. exact ops_refine_remove_tags. Qed.
+
+(* pointwise: the new child is Mandatory and is the given one up to its position stamp,
+   existing children are untouched *)
+Theorem C16_add_new_is_mandatory : forall e c,
+  get_child (echildren e) (ename c) = None ->
+  get_child (echildren (add_unique_child e c)) (ename c) = Some (Mand, with_pos e c).
+Proof. exact ops_add_new_is_mandatory. Qed.
+Theorem C16_add_new_same_fields : forall e c,
+  ename (with_pos e c) = ename c /\ etext (with_pos e c) = etext c /\
+  estandalone (with_pos e c) = estandalone c /\ ecount (with_pos e c) = ecount c /\
+  eattrs (with_pos e c) = eattrs c /\ echildren (with_pos e c) = echildren c.
+Proof. exact with_pos_fields. Qed.
+Theorem C16_add_keeps_existing : forall e c m x,
+  get_child (echildren e) m = Some x -> get_child (echildren (add_unique_child e c)) m = Some x.
+Proof. exact ops_add_keeps_existing. Qed.
+Theorem C16_add_keeps_others : forall e c m,
+  m <> ename c -> get_child (echildren (add_unique_child e c)) m = get_child (echildren e) m.
+Proof. exact ops_add_keeps_others. Qed.
+
+Theorem C16_add_op : forall e p n a x, get_at e p = Some x ->
+  exists x', get_at (fst (step e (OAdd p n a))) p = Some x' /\
+             child_tags (echildren x') = tags_add n (child_tags (echildren x)) /\
+             (forall m c, get_child (echildren x) m = Some c -> get_child (echildren x') m = Some c).
+Proof. exact ops_add_op. Qed.
+
+(* ---- 7. non-vacuity on a concrete run (add, optional, add again, move, copy, merge, remove) ---- *)
+Example C16_example_run :
+  child_tags (echildren ex_tree) = [(s "a", Opt); (s "c", Mand)] /\
+  option_map (fun x => child_tags (echildren x)) (get_at ex_tree [s "a"])
+    = Some [(s "b", Mand)] /\
+  option_map (fun x => child_tags (echildren x)) (get_at ex_tree [s "a"; s "b"])
+    = Some [(s "d", Mand)] /\
+  option_map eattrs (get_at ex_tree [s "a"])
+    = Some [(Opt, s "x"); (Mand, s "y"); (Opt, s "w")] /\
+  snd (step (run_ops (new_element (s "r") []) (removelast ex_ops)) (ORemove [] (s "b")))
+    = option_map (fun c => (Mand, c))
+        (get_at (run_ops (new_element (s "r") []) (removelast ex_ops)) [s "b"]).
+Proof. exact ops_example_run. Qed.
+
+Example C16_example_ops_length : List.length ex_ops = 13%nat.
+Proof. exact ops_example_ops_length. Qed.
+
+Example C16_example_unique_step :
+  Uniq ex_tree /\ List.length (echildren ex_tree) = 2%nat /\
+  Uniq (fst (step ex_tree (OMove [s "a"] (s "b") []))).
+Proof. exact ops_example_unique_step. Qed.
+
+Example C16_example_add_present :
+  exists x, get_child (echildren ex_tree) (s "a") = Some x /\
+            add_unique_child ex_tree (new_element (s "a") [s "other"]) = ex_tree.
+Proof. exact ops_example_add_present. Qed.
+
+Example C16_example_remove :
+  NoDup (child_names (echildren ex_tree)) /\
+  (exists c, get_child (echildren ex_tree) (s "a") = Some c) /\
+  get_child (snd (remove_child (echildren ex_tree) (s "a"))) (s "a") = None /\
+  (exists c, get_child (snd (remove_child (echildren ex_tree) (s "a"))) (s "c") = Some c).
+Proof. exact ops_example_remove. Qed.
+
+Example C16_example_optional :
+  NoDup (child_names (echildren ex_tree)) /\
+  (exists c, get_child (echildren ex_tree) (s "c") = Some (Mand, c) /\
+             echildren c = [] /\ etext c = true /\
+             get_child (echildren (set_child_optional ex_tree (s "c"))) (s "c") = Some (Opt, c)) /\
+  child_tags (echildren (set_child_optional ex_tree (s "a"))) = [(s "c", Mand); (s "a", Opt)].
+Proof. exact ops_example_optional. Qed.
+
+(* ---- 8. history: with the behaviour before the repair (no early return on a present name)
+        uniqueness fails after  add; optional; add  ---- *)
+Theorem C16_unique_prefix_refuted :
+  exists p c, Uniq p /\ Uniq c /\
+    ~ NoDup (child_names (echildren
+        (add_unique_child_prefix (set_child_optional (add_unique_child_prefix p c) (ename c)) c))).
+Proof. exact ops_unique_prefix_refuted. Qed.
+
+Example C16_unique_repaired_same_sequence :
+  let p := new_element (s "r") [] in
+  let c := new_element (s "a") [] in
+  child_tags (echildren (add_unique_child (set_child_optional (add_unique_child p c) (ename c)) c))
+  = [(s "a", Opt)].
+Proof. exact ops_unique_repaired_same_sequence. Qed.
+
+Print Assumptions C16_unique_step.
+Print Assumptions C16_unique.
+Print Assumptions C16_unique_everywhere.
+Print Assumptions C16_unique_subtree.
+Print Assumptions C16_unique_update_at.
+Print Assumptions C16_update_at_addresses.
+Print Assumptions C16_unresolved_path_noop.
+Print Assumptions C16_add_present_noop.
+Print Assumptions C16_add_present_noop_op.
+Print Assumptions C16_lookup_sound.
+Print Assumptions C16_lookup_complete.
+Print Assumptions C16_lookup_none.
+Print Assumptions C16_remove_returns_lookup.
+Print Assumptions C16_remove_removes.
+Print Assumptions C16_remove_keeps_others.
+Print Assumptions C16_remove_order.
+Print Assumptions C16_remove_absent_noop.
+Print Assumptions C16_remove_removes_needs_nodup.
+Print Assumptions C16_remove_op.
+Print Assumptions C16_optional_keeps_subtree.
+Print Assumptions C16_optional_keeps_others.
+Print Assumptions C16_optional_is_optional.
+Print Assumptions C16_optional_keeps_subtree_needs_nodup.
+Print Assumptions C16_optional_op.
+Print Assumptions C16_refine_add_names.
+Print Assumptions C16_refine_opt_names.
+Print Assumptions C16_refine_opt_names_needs_nodup.
+Print Assumptions C16_refine_tags_names.
+Print Assumptions C16_refine_add_tags.
+Print Assumptions C16_refine_opt_tags.
+Print Assumptions C16_refine_remove_tags.
+Print Assumptions C16_add_new_is_mandatory.
+Print Assumptions C16_add_new_same_fields.
+Print Assumptions C16_add_keeps_existing.
+Print Assumptions C16_add_keeps_others.
+Print Assumptions C16_add_op.
+Print Assumptions C16_example_run.
+Print Assumptions C16_example_ops_length.
+Print Assumptions C16_example_unique_step.
+Print Assumptions C16_example_add_present.
+Print Assumptions C16_example_remove.
+Print Assumptions C16_example_optional.
+Print Assumptions C16_unique_prefix_refuted.
+Print Assumptions C16_unique_repaired_same_sequence.
